@@ -5,7 +5,7 @@ from . import c03
 
 PROP = 'C05'
 QUOTAS = {
-    'quick': {'cheap': 2, 'medium': 3, 'heavy': 1, 'F1:cheap': 12, 'F2:medium': 12, 'F5:medium': 4, 'R:cheap': 5, 'R:medium': 6, 'R:heavy': 1},
+    'quick': {'cheap': 1, 'medium': 2, 'heavy': 0, 'F1:cheap': 8, 'F2:medium': 8, 'F5:medium': 3, 'R:cheap': 3, 'R:medium': 4},
     'thorough': {'cheap': 150, 'medium': 90, 'heavy': 16, 'F1:cheap': 500, 'F2:medium': 140, 'R:cheap': 60,
                  'R:medium': 70, 'R:heavy': 16},
 }
